@@ -19,6 +19,9 @@ EXPLICIT_UNITS = ['px', 'pt', 'em', 'rem', 'vh', 'vw', '%', 'ms', 's', 'deg', 'f
 NUM_SHAPES = [('0', 0.0, False), ('1', 1.0, False), ('7', 7.0, False), ('10', 10.0, False), ('100', 100.0, False), ('12345', 12345.0, False),
               ('.5', 0.5, True), ('.25', 0.25, True), ('1.', 1.0, True), ('1.5', 1.5, True), ('1.25', 1.25, True), ('0.0', 0.0, True),
               ('10.125', 10.125, True), ('2.0', 2.0, True), ('3.1416', 3.1416, True), ('.0625', 0.0625, True)]
+# digit-run stretching: thresholds of number formatting (exponent notation, precision) lie far from small values
+LONG_SHAPES = [('10000000000000000', 1e16, False), ('123456789012', 123456789012.0, False), ('99999999', 99999999.0, False), ('1000000.5', 1000000.5, True),
+               ('.0001', 0.0001, True), ('0.1234', 0.1234, True), ('65536.0625', 65536.0625, True)]
 UNIT_FORMS = [None, None, 'p', 'e', 'x', 'r', 'px', 'pt', '%', 'vh', 'rem', 'ms']
 
 
@@ -33,6 +36,8 @@ def fmt_num(v):
 
 
 def num_value(rng, shapes=NUM_SHAPES, units=UNIT_FORMS, allow_neg=True):
+    if shapes is NUM_SHAPES and rng.random() < 0.06:
+        shapes = LONG_SHAPES
     txt, val, is_float = rng.choice(shapes)
     neg = allow_neg and val != 0 and rng.random() < 0.3
     return {'k': 'num', 'txt': ('-' if neg else '') + txt, 'val': -val if neg else val, 'float': is_float,
@@ -45,7 +50,7 @@ def color_value(rng):
     if n == 6 and rng.random() < 0.4:       # channels below 0x10 and short-able colours
         chans = [rng.choice(['00', '01', '0a', '0f', '10', '11', 'ff', 'cc', 'e7', 'b0', '0b']) for _ in range(3)]
         hexd = ''.join(chans)
-    alpha = rng.choice([None, None, None, '.1', '.25', '.5', '.75', '.0', '.125'])
+    alpha = rng.choice([None, None, None, '.1', '.25', '.5', '.75', '.0', '.125'] * 3 + ['.00005', '.0001', '.12345678', '.000001', '.99999999', '.05'])
     return {'k': 'color', 'hex': hexd, 'alpha': alpha}
 
 
